@@ -75,6 +75,36 @@ HEAP_PROGS = [
 ]
 
 
+# ---- C13: pinned matches between values built in different ways -----------------------------------------------
+EQ_PROGS = [
+    ("integers, small and beyond 64 bit", "#{ a = 100000000000000000000000000, b = [10000000000000, 10000000000000] __integer_multiply__, c = [b, 1] __integer_add__, [a =&b, a =&c, 5 =5, 5 =6] }", "[Ok, [], Ok, []]"),
+    ("binary: literal vs concat vs slice vs repeat", "#{ l = 0xaabbaabb, c = [0xaabb, 0xaabb] __binary_concat__, s = [0x00aabbaabb00, 1, 5] __binary_slice__, r = [0xaabb, 2] __binary_repeat__, [l =&c, c =&s, s =&r, r =&l, c =&c] }", "[Ok, Ok, Ok, Ok, Ok]"),
+    ("binary: same length, one byte differs; prefix of the other", "#{ a = [0xaa, 0xbb] __binary_concat__, b = [0xaa, 0xbc] __binary_concat__, c = [0xaabbcc, 0, 2] __binary_slice__, d = 0xaabbcc, [a =&b, a =&c, a =&d, 0x =0x] }", "[[], Ok, [], Ok]"),
+    ("binary: zero-filled vs literal zeros", "#{ z = 3 __binary_new__, [z =0x000000, z =0x0000, z =0x000001] }", "[Ok, [], []]"),
+    ("tuples: same shape, fields built differently", "#{ a = P[x: 1, y: 0xaabb], b = P[x: 1, y: [0xaa, 0xbb] __binary_concat__], c = P[x: 1, y: 0xaabc], d = P[x: 2, y: 0xaabb], [a =&b, a =&c, a =&d] }", "[Ok, [], []]"),
+    ("tuples: nested, and different names", "#{ a = A[1, B[0xaa, C[2]]], b = A[1, B[[0xaa, 0x] __binary_concat__, C[2]]], c = A[1, B[0xaa, D[2]]], [a =&b, a =&c] }", "[Ok, []]"),
+    ("functions: same definition, captures equal by content or not", "#{ k = [0xaa, 0xbb] __binary_concat__, f = #{ k }, k2 = [0x00aabb, 1, 3] __binary_slice__, g = #{ k2 }, k3 = 0xaabc, h = #{ k3 }, [&f =&f, &f =&g, &f =&h] }", "[Ok, Ok, []]"),
+    ("refs: a ref equals itself only", "#{ r = &%ref, a = r, b = r, [a =&a, a =&b] }", "[Ok, []]"),
+    ("repeated comparisons leave the compared binaries intact", "#{ a = [0xaa, 0xbb] __binary_concat__, b = [0x00aabb, 1, 3] __binary_slice__, x = a =&b, y = a =&b, [x, y, a, b] }", "[Ok, Ok, 0xaabb, 0xaabb]"),
+]
+
+
+def check_eq_progs(quiv):
+    fails = []
+    for name, src, expect in EQ_PROGS:
+        r = run_prog(quiv, src, timeout=20)
+        why = None
+        if r.get("timeout"):
+            why = "timed out (worker panic or hang)"
+        elif r.get("rc") != 0:
+            why = "run failed: " + r.get("stderr", "")[-200:]
+        elif r.get("value") != expect:
+            why = "evaluated to %r, expected %r" % (r.get("value"), expect)
+        if why:
+            fails.append({"program": name, "source": src, "why": why})
+    return {"runs": len(EQ_PROGS), "failures": fails}
+
+
 def check_tail_shapes(quiv, n=40, factor=50):
     fails = []
     runs = 0
@@ -116,4 +146,6 @@ def search(prop):
     quiv = build_quiv()
     if prop == "C16":
         return check_tail_shapes(quiv)
+    if prop == "C13":
+        return check_eq_progs(quiv)
     return check_heap_progs(quiv)
